@@ -528,8 +528,11 @@ class List(list, base.Symbolic, pg_typing.CustomTyping):
     if self._onchange_callback is not None:
       self._onchange_callback(field_updates)
 
-  def _sym_on_silent_change(self) -> None:
+  def _sym_on_silent_change(
+      self,
+      field_updates: Optional[typing.List[base.FieldUpdate]] = None) -> None:
     """Applies the removals requested by a change that is not notified."""
+    del field_updates
     self._remove_missing_items()
 
   def _remove_missing_items(self) -> None:
